@@ -174,7 +174,11 @@ pub fn transform_file(input: &str, output: &str, cfg: &TransformConfig) -> Resul
     };
 
     if output == "-" {
-        transform_stream(&mut in_reader, &mut std::io::stdout(), cfg)?;
+        let mut stdout = std::io::stdout();
+        transform_stream(&mut in_reader, &mut stdout, cfg)?;
+        // stdout is line buffered: without an explicit flush a failure to write
+        // the final (partial) line would go unreported.
+        stdout.flush()?;
     } else {
         let mut out_temp = NamedTempFile::new()?;
         transform_stream(&mut in_reader, &mut out_temp, cfg)?;
